@@ -34,7 +34,7 @@ man = {
               "source_commits": [], "add_only": True},
     "engines": [{"name": "coq-proof+correspondence", "path": "/verif/check",
                  "serves_properties": sorted(claimed),
-                 "kind_free_text": "Coq 8.16 theorems about an executable Gallina model (coq/): kernels, control skeleton, Bellman operator, reductions, dispatchers and glue regenerated from the Python source by 18 fail-closed translators (translator/py2coq*.py) on every run and composed into end-to-end theorems (what solve returns is the specification's solution; every row of simulate is a feasible maximiser); hand-written model parts tied by differential runs of the extracted OCaml runner against lcm (harness/)"}],
+                 "kind_free_text": "Coq 8.16 theorems about an executable Gallina model (coq/): kernels, control skeleton, Bellman operator, reductions, dispatchers and glue regenerated from the Python source by 21 fail-closed translators (translator/py2coq*.py; incl. get_variable_info, create_filter_mask, create_data_scs, _compute_targets) on every run and composed into end-to-end theorems (what solve returns is the specification's solution; every row of simulate is a feasible maximiser); hand-written model parts tied by differential runs of the extracted OCaml runners (bin/model_runner and three small ones for the regenerated get_variable_info, create_filter_mask, create_data_scs) against lcm (harness/)"}],
     "checks": checks,
     "notes": claims.get("notes", ""),
     "not_applicable": na,
